@@ -328,7 +328,16 @@ fn on_probe(s: u32, arg: usize) {
             site::STEP_LOCKED => l.pulls = 0,
             _ => {}
         }
-        if mode != 0 {
+        if mode == 3 && (s == site::MT_RUN_BEFORE_IDLE_CHECK || (s == site::MT_WORKER_BEFORE_DEACTIVATE && arg as u64 == EXEC_SEED.load(Relaxed) % 3)) && l.rng.chance(3, 4) {
+            // Directed hold-back (mode 3): the caller reaches its idle check only
+            // after the workers are done (so it never parks), and one designated
+            // worker is the last one to clear its activity bit.
+            if si < NSITES {
+                l.delays[si] += 1;
+            }
+            delay = 4;
+            amount = if s == site::MT_RUN_BEFORE_IDLE_CHECK { l.rng.range(300, 2500) } else { l.rng.range(50, 400) };
+        } else if mode != 0 {
             let p = if focus >> s & 1 == 1 { P_FOCUS.load(Relaxed) } else { P_OTHER.load(Relaxed) };
             if p != 0 && l.rng.below(1024) < p as u64 {
                 if si < NSITES {
